@@ -1371,6 +1371,8 @@ impl Scenario for Violations {
             // a server that keeps talking behind its CloseOk: whatever the I/O thread still acts
             // on in that state is a violation like any other
             .chain(["unopened-channel", "client-only-method", "heartbeat"].iter().map(|k| json!({"kind": "behind-close-ok", "what": k})))
+            // the exception's Close over a transport that takes it in pieces
+            .chain(["content-on-channel0", "client-only-method", "unimplemented-class"].iter().map(|k| json!({"kind": k, "write_cuts": true})))
             .collect()
     }
     fn bound(&self, tier: &str, p: &Value) -> usize {
@@ -1408,6 +1410,12 @@ impl Scenario for Violations {
         }
         let mut cfg = EnvConfig::default();
         cfg.deliver_cuts = true;
+        if p["write_cuts"] == true {
+            cfg.deliver_cuts = false;
+            cfg.write_cuts = true;
+            cfg.write_cut_limit = 2;
+            cfg.grant_menu = vec![1];
+        }
         Built {
             broker: Box::new(broker),
             cfg,
@@ -1488,7 +1496,10 @@ impl Scenario for Violations {
             v.push(("violations:mis-delivered".into(), format!("{}: consumer saw {:?}, expected only the valid delivery 50", kind, msgs)));
         }
         if let (Some(code), true) = (code, main.iter().any(|l| l == "close -> Err(ClientException)")) {
-            let (envs, _) = wire_frames(o);
+            let (envs, rest) = wire_frames(o);
+            if rest != 0 {
+                v.push(("violations:exception-close-frame".into(), format!("{}: {} bytes behind the last whole frame on the wire", kind, rest)));
+            }
             let ok = match envs.last().and_then(|e| e.decode()) {
                 Some(AMQPFrame::Method(0, AMQPClass::Connection(pconnection::AMQPMethod::Close(c)))) => c.reply_code == code || (kind == "content-on-channel0" && [503u16, 504, 505].contains(&c.reply_code)),
                 _ => false,
